@@ -92,72 +92,86 @@ def rule_surgery(prog: Program, levels: int = 2) -> RuleResult:
     exq = prog.cls("conclusion_selector.ExceptIf").qual
     altq = prog.cls("conclusion_selector.Alternative").qual
     nxtq = prog.cls("conclusion_selector.Next").qual
-    routines = [("refinement", mod.funcs.get("refinement"), [], exq, False),
-                ("alternative", mod.funcs.get("alternative"), [], altq, True),
-                ("next_rule", mod.funcs.get("next_rule"), [], nxtq, True)]
-    shapes = _shapes(prog, levels)
-    for rname, fn, extra, want_kind, climbs in routines:
+    routines = [("refinement", mod.funcs.get("refinement"), exq, False),
+                ("alternative", mod.funcs.get("alternative"), altq, True),
+                ("next_rule", mod.funcs.get("next_rule"), nxtq, True)]
+    for rname, fn, _k, _c in routines:
         if fn is None:
             raise AnalysisError(f"RULE-SURGERY: {rname} vanished from rule.py")
-        fails: Dict[str, List[str]] = {"slot-updated": [], "other-slots-unchanged": [], "graph-agrees": [], "wraps-node-and-branch": [], "returns-new-branch": []}
+    shapes = _shapes(prog, levels)
+    KEYS = ("slot-updated", "other-slots-unchanged", "graph-agrees", "wraps-node-and-branch", "returns-new-branch")
+
+    def slot_of(parent: Obj, child: Obj) -> Optional[str]:
+        for f in ("left", "right", "_child_"):
+            if parent.f.get(f) is child and not (f == "_child_" and prog.is_subclass(parent.kind, binop)):
+                return f
+        return None
+
+    def apply(heap: Heap, rname: str, fn, want_kind: str, climbs: bool, n: Obj, tag: str, lab: str, fails: Dict[str, List[str]]):
+        """run one routine with n as the current node and judge it against the structure as it is now"""
+        nb = heap.new("NB" + tag, and_q)
+        heap.current = n
+        before = _snapshot(heap)
+        known = set(id(o) for o in heap.objs)
+        # expected wrapped node, from the structure (operand fields) as it is before the call
+        rnode, rparent = n, n.gparent
+        rslot = slot_of(rparent, rnode) if rparent is not None else None
+        if climbs:
+            while rparent is not None and rparent.gparent is not None and (rparent.kind in (altq, nxtq) or (rparent.kind == exq and rslot == "left")):
+                rnode, rparent = rparent, rparent.gparent
+                rslot = slot_of(rparent, rnode)
+        it = Interp(heap, fn)
+        env = {"__new_branch__": nb, "conditions": ()}
+        try:
+            it.block(fn.node.body, env, fn.module)
+            ret = None
+        except _Ret as x_:
+            ret = x_.v
+        xs = [o for o in heap.objs if id(o) not in known and o.name.startswith("X")]
+        x = xs[-1] if xs else None
+        if x is None or rparent is None or rslot is None:
+            for k in KEYS:
+                fails[k].append(lab)
+            return None
+        if rparent.f.get(rslot) is not x:
+            fails["slot-updated"].append(f"{lab}: {rparent}.{rslot} holds {rparent.f.get(rslot)} (expected the new selector wrapping {rnode})")
+        after = _snapshot(heap)
+        for (oname, f), v in before.items():
+            if (oname, f) == (rparent.name, rslot):
+                continue
+            o = next(o for o in heap.objs if o.name == oname)
+            if f == "_child_" and prog.is_subclass(o.kind, binop):
+                continue  # scratch field of binary nodes, never read for them
+            if after.get((oname, f)) is not v:
+                fails["other-slots-unchanged"].append(f"{lab}: {oname}.{f} changed from {v} to {after.get((oname, f))}")
+        bad_graph = []
+        for o in heap.objs:
+            for f, c in o.f.items():
+                if isinstance(c, Obj) and not (f == "_child_" and prog.is_subclass(o.kind, binop)) and c.gparent is not o:
+                    bad_graph.append(f"{o}.{f}={c} but graph parent of {c} is {c.gparent}")
+        if x.gparent is not rparent:
+            bad_graph.append(f"graph parent of {x} is {x.gparent}, operand owner should be {rparent}")
+        if bad_graph:
+            fails["graph-agrees"].append(f"{lab}: " + "; ".join(bad_graph[:2]))
+        if not (x.kind == want_kind and x.f.get("left") is rnode and x.f.get("right") is nb):
+            fails["wraps-node-and-branch"].append(f"{lab}: {x}=({x.kind.split('.')[-1]}, left={x.f.get('left')}, right={x.f.get('right')}), expected left={rnode}")
+        if ret is not nb:
+            fails["returns-new-branch"].append(f"{lab}: returned {ret}")
+        return x
+
+    # (1) one routine on every shape; every shape twice: never evaluated, and as an evaluation leaves it (each node's
+    #     per-evaluation parent = its parent at that time)
+    for rname, fn, want_kind, climbs in routines:
+        fails: Dict[str, List[str]] = {k: [] for k in KEYS}
         nshape = 0
-        for shape in shapes:
+        for shape, evaluated in [(sh, ev_) for sh in shapes for ev_ in (False, True)]:
             heap = Heap(prog)
             n, anc = _build(heap, shape, and_q)
-            nb = heap.new("NB", and_q)
-            heap.current = n
-            before = _snapshot(heap)
-            it = Interp(heap, fn)
-            env = {"__new_branch__": nb, "conditions": ()}
-            try:
-                it.block(fn.node.body, env, fn.module)
-                ret = None
-            except _Ret as x:
-                ret = x.v
+            if evaluated:
+                for o in heap.objs:
+                    o.eparent = o.gparent
             nshape += 1
-            lab = _label(shape)
-            # expected wrapped node
-            rnode, rparent, rslot = n, anc[0][0], anc[0][1]
-            if climbs:
-                i = 0
-                while i < len(anc):
-                    p, s = anc[i]
-                    if p.kind in (altq, nxtq) or (p.kind == exq and s == "left"):
-                        rnode = p
-                        rparent, rslot = anc[i + 1]
-                        i += 1
-                    else:
-                        break
-            xs = [o for o in heap.objs if o.name.startswith("X")]
-            x = xs[-1] if xs else None
-            if x is None:
-                for k in fails:
-                    fails[k].append(lab)
-                continue
-            if rparent.f.get(rslot) is not x:
-                fails["slot-updated"].append(f"{lab}: {rparent}.{rslot} holds {rparent.f.get(rslot)} (expected the new selector wrapping {rnode})")
-            after = _snapshot(heap)
-            for (oname, f), v in before.items():
-                if (oname, f) == (rparent.name, rslot):
-                    continue
-                o = next(o for o in heap.objs if o.name == oname)
-                if f == "_child_" and prog.is_subclass(o.kind, binop):
-                    continue  # scratch field of binary nodes, never read for them
-                if after.get((oname, f)) is not v:
-                    fails["other-slots-unchanged"].append(f"{lab}: {oname}.{f} changed from {v} to {after.get((oname, f))}")
-            bad_graph = []
-            for o in heap.objs:
-                for f, c in o.f.items():
-                    if isinstance(c, Obj) and not (f == "_child_" and prog.is_subclass(o.kind, binop)) and c.gparent is not o:
-                        bad_graph.append(f"{o}.{f}={c} but graph parent of {c} is {c.gparent}")
-            if x.gparent is not rparent:
-                bad_graph.append(f"graph parent of {x} is {x.gparent}, operand owner should be {rparent}")
-            if bad_graph:
-                fails["graph-agrees"].append(f"{lab}: " + "; ".join(bad_graph[:2]))
-            if not (x.kind == want_kind and x.f.get("left") is rnode and x.f.get("right") is nb):
-                fails["wraps-node-and-branch"].append(f"{lab}: {x}=({x.kind.split('.')[-1]}, left={x.f.get('left')}, right={x.f.get('right')}), expected left={rnode}")
-            if ret is not nb:
-                fails["returns-new-branch"].append(f"{lab}: returned {ret}")
+            apply(heap, rname, fn, want_kind, climbs, n, "", _label(shape) + (" (after an evaluation)" if evaluated else ""), fails)
         for k, lst in fails.items():
             r.check(
                 not lst, f"{rname}#{k}", site(fn), f"{nshape} initial shapes",
@@ -166,6 +180,29 @@ def rule_surgery(prog: Program, levels: int = 2) -> RuleResult:
                 + " - a branch the user wrote is not reachable through the operand fields that evaluation follows",
                 failing=len(lst), shapes=nshape,
             )
+    # (2) two routines in a row from the same current node (what two sibling with-blocks do), on trees an evaluation has touched:
+    #     the second one must see the tree the first one left, not the parents the evaluation installed
+    seq_shapes = _shapes(prog, 1 if levels < 3 else 2)
+    for (r1, f1, k1, c1), (r2, f2, k2, c2) in itertools.product(routines, repeat=2):
+        fails = {k: [] for k in KEYS}
+        nshape = 0
+        for shape in seq_shapes:
+            heap = Heap(prog)
+            n, anc = _build(heap, shape, and_q)
+            for o in heap.objs:
+                o.eparent = o.gparent
+            first: Dict[str, List[str]] = {k: [] for k in KEYS}
+            apply(heap, r1, f1, k1, c1, n, "1", _label(shape), first)
+            if any(first.values()):
+                continue  # reported by (1)
+            nshape += 1
+            apply(heap, r2, f2, k2, c2, n, "2", f"{_label(shape)} (evaluated, then {r1}, then {r2})", fails)
+        bad = [x for lst in fails.values() for x in lst]
+        r.check(not bad, f"{r1}-then-{r2}#second-sees-first", site(f2), f"{nshape} shapes",
+                f"the tree after {r1} and {r2} from the same node is what the two branches mean, for all {nshape} evaluated shapes",
+                f"{len(bad)} postconditions fail, e.g. [{bad[0] if bad else ''}] - the second routine navigates by a parent that a previous evaluation installed, "
+                f"so the branch written first is cut out of the tree and never evaluated",
+                failing=len(bad), shapes=nshape)
     return r
 
 
@@ -261,8 +298,74 @@ def rule_select(prog: Program) -> RuleResult:
             f"the also-if selector does not select left and right conclusions independently: {bad or ('the selection depends on ' + str(other))}")
     _emission_protocol(r, h, "Next._evaluate__")
     _dedup_key(prog, r)
+    side_flags(prog, r)
+    else_operand(prog, r)
     r.check(prog.lookup_super(nx.qual, nx.qual, "_evaluate__").cls.name == "Union", "Next._evaluate__#union-base", site(h), "", "both sides are always evaluated", "also-if does not evaluate both sides")
     return r
+
+
+def side_flags(prog: Program, r: RuleResult):
+    """The also-if selector reads the OR node's left_evaluated / right_evaluated flags to decide whose conclusions a result carries.
+    A flag raised for one side's results must be down whenever the other side emits: either the other side's emitter lowers it before
+    its first emission, or the raising function lowers it on every way to its normal end."""
+    orc = prog.cls("symbolic.OR")
+    flags = [n for n, fi in prog.fields(orc.qual).items() if n.endswith("_evaluated")]
+    if len(flags) != 2:
+        raise AnalysisError(f"RULE-SELECT: expected the two side flags on OR, found {flags}")
+    meths = [m for m in orc.methods.values() if m.is_generator]
+    info = {}
+    for m in meths:
+        cfg = CFG(m.node)
+        sets = {}
+        for n in cfg.nodes:
+            if isinstance(n.stmt, ast.Assign) and len(n.stmt.targets) == 1 and is_self_attr(n.stmt.targets[0]) and n.stmt.targets[0].attr in flags and isinstance(n.stmt.value, ast.Constant):
+                sets.setdefault((n.stmt.targets[0].attr, bool(n.stmt.value.value)), []).append(n)
+        yields = [n for n in cfg.nodes if n.stmt is not None and n.kind == "stmt" and any(isinstance(x, ast.Yield) for x in ast.walk(n.stmt))]
+        info[m.name] = (m, cfg, sets, yields)
+    for fl in flags:
+        raisers = [name for name, (_m, _c, sets, _y) in info.items() if (fl, True) in sets]
+        if not raisers:
+            raise AnalysisError(f"RULE-SELECT: nothing raises OR.{fl}")
+        for name in raisers:
+            m, cfg, sets, _y = info[name]
+            # (b) lowered again on every way from the raise to the normal end of the raising function
+            lowered_at_end = all(cfg.path_avoiding(n.id, cfg.exit, {x.id for x in sets.get((fl, False), [])}) is None for n in sets[(fl, True)])
+            # (a) every other emitter lowers it before its own emissions
+            others = [o for o in info if o != name and info[o][3] and not any(k == (fl, True) for k in info[o][2])]
+            lowered_by_others = bool(others) and all(
+                all(any(cfg2.dominates(z.id, y.id) for z in sets2.get((fl, False), [])) for y in ys2)
+                for (_m2, cfg2, sets2, ys2) in (info[o] for o in others)
+            )
+            r.check(lowered_at_end or lowered_by_others, f"OR.{name}#{fl}-scoped", site(m, sets[(fl, True)][0].stmt), f"self.{fl} = True",
+                    "lowered again before the other side can emit" + (" (at the end of the raising function)" if lowered_at_end else " (at the start of the other emitters)"),
+                    f"OR.{fl} is raised in {name} and neither lowered on every way to the end of {name} nor lowered by the other side's emitter before it emits: a result that came from the "
+                    f"other operand alone is taken for one of this side too, and the also-if selector attaches this side's conclusions to it")
+
+
+def else_operand(prog: Program, r: RuleResult):
+    """An else-if node (alternative) evaluates its right operand for every left result flagged false. A left operand may therefore flag a
+    result false only when the operand as a whole is false for those bindings. The union evaluation (next_rule) has a second pass over its
+    right operand alone: a false result of that pass says nothing about the left operand."""
+    from .c01 import summary_of, concrete_classes, _flag_label
+
+    un = prog.cls("symbolic.Union")
+    sel = prog.cls("conclusion_selector.ConclusionSelector")
+    # rule trees only: the selectors that run the union evaluation (plain or_ between conditions over different variables is outside C08)
+    for c in [x for x in concrete_classes(prog) if prog.is_subclass(x.qual, un.qual) and prog.is_subclass(x.qual, sel.qual)]:
+        s = summary_of(prog, prog.cls("symbolic.Union"))
+        left = {st.id for st in s.sites if "self.left" in st.recv_roles}
+        right = {st.id for st in s.sites if "self.right" in st.recv_roles}
+        bad = None
+        for e in s.emissions:
+            fl = e.flag.flag if e.flag is not None else None
+            if fl == ("const", False):
+                continue
+            if not (e.bindings.must & left and e.bindings.must & right):
+                bad = bad or (e, fl)
+        r.check(bad is None, f"{c.name}#false-means-both-false", c.loc, f"emissions of the union evaluation that {c.name} runs",
+                "a result is flagged false only with bindings under which both operands were evaluated",
+                f"{c.name} (union evaluation, {bad[0].func if bad else ''}) emits a result flagged false from {_flag_label(bad[1], s) if bad else ''} alone: an enclosing alternative takes it for "
+                f"'no earlier branch fired' and fires although the base rule fired for the same binding")
 
 
 def _selection_table(prog: Program, f):
